@@ -47,6 +47,12 @@ class LazyGen(object):
         return list(self.it)
 
 
+class JSMatch(list):
+    """the array RegExp.prototype.exec returns: the matched text, the groups, and the position as `.index`"""
+    index = 0
+    input = ''
+
+
 class DepthBound(Undecided):
     pass
 
@@ -576,6 +582,12 @@ class Explorer(object):
         if name == 'length' and isinstance(obj, (list, tuple, str)):
             return len(obj)
         import re as _re
+        if isinstance(obj, JSMatch) and name in ('index', 'input'):
+            return getattr(obj, name)
+        if isinstance(obj, tuple) and len(obj) == 3 and obj[0] == 'regex' and name == 'lastIndex':
+            return getattr(self, '_rx_last', {}).get(id(obj), (0, obj))[0]
+        if isinstance(obj, tuple) and len(obj) == 3 and obj[0] == 'regex':
+            return ('method', obj, name)
         if isinstance(obj, (_re.Pattern, _re.Match)):
             return ('method', obj, name)
         if name == 'size' and isinstance(obj, dict) and 'size' not in obj:
@@ -981,6 +993,24 @@ class Explorer(object):
             if m in ('span', 'start', 'end', 'group', 'groups') and all(isinstance(a, int) for a in args):
                 return getattr(recv, m)(*args)
             raise Undecided('match method {} is outside the abstract interpreter'.format(m), node)
+        if isinstance(recv, tuple) and len(recv) == 3 and recv[0] == 'regex' and m == 'exec' and len(args) == 1 and isinstance(args[0], str) and ('g' in recv[2] or 'y' in recv[2]):
+            # a global / sticky regex object carries lastIndex from one exec to the next (kept per regex object of this run)
+            from . import regexlang as _R
+            if not hasattr(self, '_rx_last'):
+                self._rx_last = {}
+            last = self._rx_last.get(id(recv), (0, recv))[0]
+            try:
+                rx = _re.compile(_R.js_to_py(recv[1]), (_re.IGNORECASE if 'i' in recv[2] else 0) | (_re.MULTILINE if 'm' in recv[2] else 0) | (_re.DOTALL if 's' in recv[2] else 0))
+            except Exception:
+                raise Undecided('regex exec outside the abstract interpreter', node)
+            mo = (rx.match(args[0], last) if 'y' in recv[2] else rx.search(args[0], last)) if last <= len(args[0]) else None
+            if mo is None:
+                self._rx_last[id(recv)] = (0, recv)
+                return None
+            self._rx_last[id(recv)] = (mo.end(), recv)
+            out_ = JSMatch([mo.group(0)] + list(mo.groups()))
+            out_.index, out_.input = mo.start(), args[0]
+            return out_
         if isinstance(recv, tuple) and len(recv) == 3 and recv[0] == 'regex' and m in ('exec', 'test') and len(args) == 1 and isinstance(args[0], str) and 'g' not in recv[2] and 'y' not in recv[2]:
             # a JS regex constant (no global / sticky state) applied to a concrete string: evaluated with the translated pattern
             from . import regexlang as _R
@@ -990,7 +1020,34 @@ class Explorer(object):
                 raise Undecided('regex {} outside the abstract interpreter'.format(m), node)
             if m == 'test':
                 return mo is not None
-            return None if mo is None else [mo.group(0)] + list(mo.groups())
+            if mo is None:
+                return None
+            out_ = JSMatch([mo.group(0)] + list(mo.groups()))
+            out_.index, out_.input = mo.start(), args[0]
+            return out_
+        if recv == ('global', 're') and m == 'finditer' and len(args) == 2 and isinstance(args[0], str) and isinstance(args[1], str):
+            return list(_re.finditer(args[0], args[1]))
+        if (recv == ('global', 're') and m == 'sub' and len(args) == 3 and isinstance(args[0], str) and isinstance(args[2], str)) or (isinstance(recv, _re.Pattern) and m == 'sub' and len(args) == 2 and isinstance(args[1], str) and not isinstance(args[0], str)):
+            pat_ = _re.compile(args[0]) if not isinstance(recv, _re.Pattern) else recv
+            repl_, text_ = (args[1], args[2]) if not isinstance(recv, _re.Pattern) else (args[0], args[1])
+            kw_ = dict(getattr(self, '_kw', None) or {})
+            self._kw = {}
+            fl_ = kw_.get('flags', 0)
+            if isinstance(fl_, tuple) and len(fl_) == 2 and fl_[1] in ('re.IGNORECASE', 're.I'):
+                fl_ = _re.IGNORECASE
+            if not isinstance(fl_, int) or set(kw_) - {'flags'}:
+                raise Undecided('re.sub keywords {!r}'.format(kw_), node)
+            if fl_ and not isinstance(recv, _re.Pattern):
+                pat_ = _re.compile(args[0], fl_)
+            if isinstance(repl_, str):
+                return pat_.sub(repl_, text_)
+
+            def cb_(mo):
+                r_ = self.apply(repl_, [mo], node)
+                if not isinstance(r_, str):
+                    raise Undecided('substitution callback returns {!r}'.format(r_), node)
+                return r_
+            return pat_.sub(cb_, text_)
         if recv == ('global', 'heapq') and m in ('nsmallest', 'nlargest') and len(args) == 2 and isinstance(args[0], int) and isinstance(args[1], (list, tuple)):
             # documented as equivalent to sorted(iterable, key=key)[:n] / sorted(iterable, key=key, reverse=True)[:n]
             kw = dict(getattr(self, '_kw', None) or {})
@@ -1166,6 +1223,21 @@ class Explorer(object):
                     return _re.sub(pat_, args[1].replace('\\', '\\\\'), recv, count=0 if 'g' in args[0][2] else 1, flags=_re.I if 'i' in args[0][2] else 0)
                 except Exception:
                     raise Undecided('regex replace outside the abstract interpreter', node)
+            if m in ('replace', 'replaceAll') and len(args) == 2 and isinstance(args[0], tuple) and args[0] and args[0][0] == 'regex' and isinstance(args[1], tuple) and args[1] and args[1][0] in ('lambda', 'closure'):
+                # the replacer function gets (match, groups..., offset, string); its result is inserted as it is
+                import re as _re
+                from . import regexlang as _R
+                try:
+                    rx_ = _re.compile(_R.js_to_py(args[0][1]), _re.I if 'i' in args[0][2] else 0)
+                except Exception:
+                    raise Undecided('regex replace outside the abstract interpreter', node)
+
+                def cbj_(mo):
+                    r_ = self.apply(args[1], [mo.group(0)] + list(mo.groups()) + [mo.start(), recv], node)
+                    if not isinstance(r_, str):
+                        raise Undecided('replacer function returns {!r}'.format(r_), node)
+                    return r_
+                return rx_.sub(cbj_, recv, count=0 if 'g' in args[0][2] else 1)
             if m == 'replace' and len(args) == 2 and isinstance(args[0], str) and isinstance(args[1], str):
                 return recv.replace(args[0], args[1]) if getattr(self.port, 'name', 'py') == 'py' else recv.replace(args[0], args[1], 1)
             if m == 'split' and len(args) == 1 and isinstance(args[0], str) and args[0]:
